@@ -37,6 +37,7 @@ inductive Err where
   | gridDim         -- validate (ND): length of grid is not the values' dimensionality
   | extract         -- ND: "Could not extract value"
   | nan             -- ND: "Surrounding value(s) cannot be NaN"
+  | alloc           -- a bin count (or a table of speed_bins x grade_bins rates) that cannot be allocated
   | build           -- load_prediction_model: `BuildError` (unreadable model file, ONNX without the feature)
   | emptyAxis       -- speed/grade model: first/last of an empty axis
   | only2D          -- speed/grade model: "Only 2-D interpolators are currently supported"
@@ -133,6 +134,16 @@ def linspace (x0 xend : α) (n : Nat) : Res (List α) :=
   | m + 1 =>
     let dx := (xend - x0) / (ofNat m : α)
     .ok (x0 :: linspaceFrom dx x0 m)
+
+/-- `utils::linspace` with its allocation: `n` comes from the configuration, and `try_reserve_exact(n)`
+fails for a count that cannot be allocated.  `cap` is the largest count of `f64` values that can be
+reserved — data: it depends on the machine (address space, memory limits); above it the result is the
+allocation error (before /repo's repair `vec![x0; n]` aborted the process or panicked with "capacity
+overflow").  A count below `cap` whose table merely takes very long to fill is NOT modelled. -/
+def linspaceAlloc (cap : Nat) (x0 xend : α) (n : Nat) : Res (List α) :=
+  match n with
+  | 0 => .ok []
+  | m + 1 => if cap < m + 1 then .err .alloc else linspace x0 xend (m + 1)
 
 /-- lower index and fraction in one dimension: `find_nearest_index`, then
 `(p - g[l]) / (g[l+1] - g[l])` -/
@@ -501,6 +512,16 @@ def SpeedGradeModel.new (underlying : α → α → α) (su : SpeedUnit) (s0 s1 
       (validate2 xs ys f).bind fun _ =>
         .ok { interp := .d2 xs ys f, speedUnit := su, gradeUnit := gu, energyRateUnit := ru }
 
+/-- `InterpolationSpeedGradeModel::new` with its allocations: both axes (`linspace`), then the table of
+`speed_bins × grade_bins` rates (`checked_mul`, `try_reserve_exact`), all refused with a `BuildError`
+before anything is predicted -/
+def SpeedGradeModel.newAlloc (cap : Nat) (underlying : α → α → α) (su : SpeedUnit) (s0 s1 : α) (sb : Nat)
+    (gu : GradeUnit) (g0 g1 : α) (gb : Nat) (ru : EnergyRateUnit) : Res (SpeedGradeModel α) :=
+  (linspaceAlloc cap s0 s1 sb).bind fun _ =>
+    (linspaceAlloc cap g0 g1 gb).bind fun _ =>
+      if cap < sb * gb then .err .alloc
+      else SpeedGradeModel.new underlying su s0 s1 sb gu g0 g1 gb ru
+
 /-- `InterpolationSpeedGradeModel::predict` -/
 def SpeedGradeModel.predict (m : SpeedGradeModel α) (speed : α) (su : SpeedUnit) (grade : α)
     (gu : GradeUnit) : Res (α × EnergyRateUnit) :=
@@ -578,17 +599,20 @@ def fillGrid (underlying : α → α → Res α) : List α → List α → Res (
 
 /-- `load_prediction_model` (and, in its `Interpolate` arm, `InterpolationSpeedGradeModel::new`, which
 loads the underlying model through `load_prediction_model` again — default ideal rate, adjustment and
-cache — and fills the grid through that record at the unit distance) -/
-def loadPredictionModel (rf : α → α → α) (fileOk : Bool) : ModelType α → SpeedUnit → GradeUnit →
+cache —, allocates the axes and the table (`cap`, see `linspaceAlloc`) and fills the grid through that
+record at the unit distance) -/
+def loadPredictionModel (cap : Nat) (rf : α → α → α) (fileOk : Bool) : ModelType α → SpeedUnit → GradeUnit →
     EnergyRateUnit → Option α → Option α → Res (Record α)
   | mt, su, gu, ru, ideal, adj =>
     (match mt with
      | .smartcore => if fileOk then (.ok (smartcorePredict rf su gu ru) : Res (PModel α)) else .err .build
      | .onnx => .err .build
      | .interpolate u s0 s1 sb g0 g1 gb =>
-       (loadPredictionModel rf fileOk u su gu ru none none).bind fun urec =>
-         (linspace s0 s1 sb).bind fun xs =>
-           (linspace g0 g1 gb).bind fun ys =>
+       (loadPredictionModel cap rf fileOk u su gu ru none none).bind fun urec =>
+         (linspaceAlloc cap s0 s1 sb).bind fun xs =>
+           (linspaceAlloc cap g0 g1 gb).bind fun ys =>
+             if cap < sb * gb then .err .alloc
+             else
              (fillGrid (fun s g =>
                 (urec.predict s su g gu (one : α) ru.associatedDistanceUnit).bind fun e => .ok e.1) xs ys).bind fun f =>
                (validate2 xs ys f).bind fun _ =>
